@@ -98,9 +98,13 @@ theorem decodeOfsAux_encodeOfsAux (m : Nat) : ∀ (b : UInt8) (acc : Bytes), 0 <
         (UInt8.ofNat (Gen.Pack.ofsContBit + (m - Gen.Pack.ofsBias) % (Gen.Pack.ofsGroupMask + 1))) (b :: acc) (by omega)
       refine ⟨b', r', he, ?_⟩
       rw [hd]
-      simp only [decodeOfsAux, hB, Gen.Pack.doBias, Gen.Pack.doGroupShift, Gen.Pack.doGroupMask]
-      congr 1
-      omega
+      conv => lhs; rw [decodeOfsAux]
+      rw [hB]
+      have e : ((m - 1) / 128 - 1 + Gen.Pack.doBias) * 2 ^ Gen.Pack.doGroupShift
+          + (128 + (m - 1) % 128) % (Gen.Pack.doGroupMask + 1) = m - 1 := by
+        simp only [Gen.Pack.doBias, Gen.Pack.doGroupShift, Gen.Pack.doGroupMask]
+        omega
+      rw [e]
 
 theorem lastHasMsb_encodeOfsAux (m : Nat) : ∀ (acc : Bytes), acc ≠ [] →
     lastHasMsb (encodeOfsAux m acc) = lastHasMsb acc := by
@@ -135,8 +139,7 @@ theorem feed_invariant (hs : Nat) (hhs : 0 < hs) (s : TrailerState) (P data : By
     by_cases hd : data.length = 0
     · have : data = [] := List.eq_nil_of_length_eq_zero hd
       subst this
-      have hp : 0 + s.trailer.length - hs = 0 := by omega
-      simp [pyDropLast, pyTakeLast, hp, h1, h2]
+      simp [pyDropLast, pyTakeLast, h1, h2]
     · simp only [pyDropLast, pyTakeLast, hd, if_false, Nat.sub_self, List.take_zero, List.drop_zero,
         List.append_nil]
       refine ⟨?_, ?_⟩
